@@ -2288,6 +2288,17 @@ func (r *RIBHolder) GetRIB(filter map[spb.AFTType]bool, msgCh chan *spb.GetRespo
 	r.mu.RLock()
 	defer r.mu.RUnlock()
 
+	// send writes m to msgCh, giving up if the caller signals that it is no
+	// longer reading: blocking on msgCh forever would keep the RIB locked.
+	send := func(m *spb.GetResponse) bool {
+		select {
+		case msgCh <- m:
+			return true
+		case <-stopCh:
+			return false
+		}
+	}
+
 	// rewrite ALL to the values that we support.
 	if filter[spb.AFTType_ALL] {
 		filter = map[spb.AFTType]bool{
@@ -2309,13 +2320,15 @@ func (r *RIBHolder) GetRIB(filter map[spb.AFTType]bool, msgCh chan *spb.GetRespo
 				if err != nil {
 					return status.Errorf(codes.Internal, "cannot marshal IPv4Entry for %s into GetResponse, %v", pfx, err)
 				}
-				msgCh <- &spb.GetResponse{
+				if !send(&spb.GetResponse{
 					Entry: []*spb.AFTEntry{{
 						NetworkInstance: r.name,
 						Entry: &spb.AFTEntry_Ipv4{
 							Ipv4: p,
 						},
 					}},
+				}) {
+					return nil
 				}
 			}
 		}
@@ -2331,13 +2344,15 @@ func (r *RIBHolder) GetRIB(filter map[spb.AFTType]bool, msgCh chan *spb.GetRespo
 				if err != nil {
 					return status.Errorf(codes.Internal, "cannot marshal IPv6Entry for %s into GetResponse, %v", pfx, err)
 				}
-				msgCh <- &spb.GetResponse{
+				if !send(&spb.GetResponse{
 					Entry: []*spb.AFTEntry{{
 						NetworkInstance: r.name,
 						Entry: &spb.AFTEntry_Ipv6{
 							Ipv6: p,
 						},
 					}},
+				}) {
+					return nil
 				}
 			}
 		}
@@ -2353,13 +2368,15 @@ func (r *RIBHolder) GetRIB(filter map[spb.AFTType]bool, msgCh chan *spb.GetRespo
 				if err != nil {
 					return status.Errorf(codes.Internal, "cannot marshal MPLS entry for label %d into GetResponse, %v", lbl, err)
 				}
-				msgCh <- &spb.GetResponse{
+				if !send(&spb.GetResponse{
 					Entry: []*spb.AFTEntry{{
 						NetworkInstance: r.name,
 						Entry: &spb.AFTEntry_Mpls{
 							Mpls: p,
 						},
 					}},
+				}) {
+					return nil
 				}
 			}
 		}
@@ -2375,13 +2392,15 @@ func (r *RIBHolder) GetRIB(filter map[spb.AFTType]bool, msgCh chan *spb.GetRespo
 				if err != nil {
 					return status.Errorf(codes.Internal, "cannot marshal NextHopGroupEntry for index %d into GetResponse, %v", index, err)
 				}
-				msgCh <- &spb.GetResponse{
+				if !send(&spb.GetResponse{
 					Entry: []*spb.AFTEntry{{
 						NetworkInstance: r.name,
 						Entry: &spb.AFTEntry_NextHopGroup{
 							NextHopGroup: p,
 						},
 					}},
+				}) {
+					return nil
 				}
 			}
 		}
@@ -2397,13 +2416,15 @@ func (r *RIBHolder) GetRIB(filter map[spb.AFTType]bool, msgCh chan *spb.GetRespo
 				if err != nil {
 					return status.Errorf(codes.Internal, "cannot marshal NextHopEntry for ID %d into GetResponse, %v", id, err)
 				}
-				msgCh <- &spb.GetResponse{
+				if !send(&spb.GetResponse{
 					Entry: []*spb.AFTEntry{{
 						NetworkInstance: r.name,
 						Entry: &spb.AFTEntry_NextHop{
 							NextHop: p,
 						},
 					}},
+				}) {
+					return nil
 				}
 			}
 		}
